@@ -1,4 +1,5 @@
 #include <yaclib/fault/detail/fiber/mutex.hpp>
+#include <yaclib/fault/inject.hpp>
 
 namespace yaclib::detail::fiber {
 
@@ -7,6 +8,7 @@ void Mutex::lock() {
     _queue.Wait(NoTimeoutTag{});
   }
   _occupied = true;
+  YACLIB_VERIF_SYNC(5, this, 0ULL);
 }
 
 bool Mutex::try_lock() noexcept {
@@ -14,10 +16,12 @@ bool Mutex::try_lock() noexcept {
     return false;
   }
   _occupied = true;
+  YACLIB_VERIF_SYNC(5, this, 0ULL);
   return true;
 }
 
 void Mutex::unlock() noexcept {
+  YACLIB_VERIF_SYNC(6, this, 0ULL);
   _occupied = false;
   _queue.NotifyOne();
 }
